@@ -73,6 +73,30 @@ JudgeSplits(e) ==
        ELSE IF o.cmp /\ r.rest # o.rest THEN "BAD-split-consumed"
        ELSE "ok"
 
+\* ---- several heads on one stream sharing one buffer, every partition (C01 at connection level) ----
+(* read_http_request is called again and again on the same N-byte buffer until it fails.  The whole-input  *)
+(* oracle is applied to what is left after each head: every head that fits the buffer must be read,        *)
+(* whatever was consumed before it and however the stream was cut.                                         *)
+RECURSIVE SeqOracle(_, _, _)
+SeqOracle(in, N, acc) ==
+  LET o == Oracle(in, N) IN
+  IF o.p > 0 /\ o.ref.class = "accept" /\ Len(acc) < 12
+  THEN SeqOracle(SubSeq(in, o.p + 4, Len(in)), N, Append(acc, o))
+  ELSE [list |-> Append(acc, o), last |-> o]
+JudgeReqSplits(e) ==
+  LET x == SeqOracle(e.bytes, e.buf, <<>>) IN
+  IF \E i \in 1..Len(x.list) : x.list[i].ref.class = "free" THEN "ok-free"
+  ELSE IF Len(e.outcomes) # 1 THEN "BAD-split-dependent"
+  ELSE LET r == e.outcomes[1] IN
+       IF \E i \in 1..Len(r.list) : r.list[i].k = "Panic" THEN "BAD-split-panic"
+       ELSE IF r.loop \/ \E i \in 1..Len(r.list) : r.list[i].k = "Hang" THEN "BAD-loop"
+       ELSE IF Len(r.list) # Len(x.list) THEN "BAD-split-outcome"
+       ELSE IF \E i \in 1..Len(r.list) : r.list[i].k \notin x.list[i].kinds THEN "BAD-split-outcome"
+       ELSE IF \E i \in 1..Len(r.list) : r.list[i].k = "Ok" /\ x.list[i].ref.class = "accept" /\ r.list[i].path # x.list[i].ref.path
+       THEN "BAD-consumed"
+       ELSE IF x.last.cmp /\ r.rest # x.last.rest THEN "BAD-split-consumed"
+       ELSE "ok"
+
 \* ---- through a real server (C01: never silently kills the connection task) ----
 JudgeTcp(e) ==
   IF e.panics # <<>> THEN "BAD-task-panic"
@@ -86,6 +110,7 @@ JudgeTcp(e) ==
 
 Judge(e) == CASE e.ev = "TryRead" -> <<JudgeParse(e), JudgeSplit(e)>>
               [] e.ev = "Splits" -> <<JudgeSplits(e)>>
+              [] e.ev = "ReqSplits" -> <<JudgeReqSplits(e)>>
               [] e.ev = "Tcp" -> <<JudgeTcp(e)>>
               [] OTHER -> <<"ok">>
 IsBad(t) == SubSeq(t, 1, 3) = "BAD"
